@@ -21,7 +21,7 @@ Proof. exact sys_wait_sorted. Qed.
 
 (** a job that was canceled while waiting is never started, and never gets a scheduler *)
 Theorem C03_canceled_waiting_stays_out : ∀ s evs id j,
-  reach s → get_job s id = Some j →
+  reach s → Forall no_restart evs → get_job s id = Some j →
   ∃ j', get_job (exec s evs) id = Some j' ∧ job_snapshot j' = job_snapshot j
         ∧ (j_canceled j = true → j_canceled j' = true) ∧ (j_completed j = true → j_completed j' = true)
         ∧ (is_Some (j_start j) → is_Some (j_start j'))
